@@ -225,6 +225,14 @@ def shared_cases():
     for salt in (None, "s"):
         prog = M.program("exp", body, salt=salt, splitters=["account_id", "region"])
         yield {"shared": True, "prog": prog, "inputs": [M.enc_inputs({"account_id": v, "region": r}) for v in vals for r in ("eu", "us", 0)]}
+    # splitters that the conditions compare with TEXT only (country in ("FR", "BE"), == "DE", not in a string): the value may
+    # still be of any type (None for "unknown", a numeric code, a bool) and still gets its group
+    body2 = M.if_([(M.cmp_(I("country"), "in", M.tup([S("FR"), S("BE")])), G("fr")), (M.cmp_(I("country"), "==", S("DE")), G("de")),
+                   (M.cmp_(S("x"), "!=", I("segment")), G("seg"))], G("rest"))
+    vals2 = ["FR", "DE", "x", "", None, 0, 1, 33, 2.5, True, False, float("nan"), 10 ** 30, -0.0, "é", (1, 2), 9007199254740993]
+    for salt, names in ((None, ["country", "uid"]), ("s", ["uid", "segment", "country"]), ("", ["segment"])):
+        prog = M.program("exp", body2, salt=salt, splitters=names)
+        yield {"shared": True, "prog": prog, "inputs": [M.enc_inputs({"country": v, "segment": w, "uid": "u1"}) for v in vals2 for w in ("x", None, 7)]}
 
 
 def judge_shared(case):
